@@ -3,7 +3,7 @@ CONSTANTS
   Methods = @@METHODS@@
   MaxAtts = @@MAXATTS@@
   Callbacks <- GenCallbacks
-  Faults = {"dialErr", "writeErr", "eofBeforeResponse", "readTimeout", "oversizedBody", "ok"}
+  Faults = {"dialErr", "writeErr", "eofBeforeResponse", "readTimeout", "oversizedCL", "oversizedChunked", "oversizedIdentity", "ok"}
   MaxSteps = 7
 INVARIANT Inv
 INVARIANT Emit
